@@ -20,11 +20,14 @@ HERE = os.path.dirname(os.path.abspath(__file__))
 CAPS = json.load(open(os.path.join(HERE, '..', 'spec', 'capabilities.json')))
 
 
+_LIBS = {}
+
+
 def bad_events(p, n0=0):
     return [e for e in p['st'].events[n0:] if e[0] in BAD_EVENTS]
 
 
-def vg_replay(chk, lines, why, scalar='double', leak=False, lang='c++'):
+def vg_replay(chk, lines, why, scalar='double', leak=False, lang='c++', alt_lines=None):
     """replay under valgrind memcheck (uninitialised use, invalid access, leaks)"""
     def replay(ob, model):
         import replay as rp
@@ -38,6 +41,17 @@ def vg_replay(chk, lines, why, scalar='double', leak=False, lang='c++'):
         if rc == 97 or 'Invalid' in err or 'uninitialised' in err or 'definitely lost' in err:
             path = chk.save_replay(ob, dict(obligation=ob.name, why=why, valgrind=err[-3000:], rc=rc), src)
             return dict(reproduced=True, path=path, detail='%s; valgrind: %s' % (why, (err.strip().split('\n') or [''])[0][:200]))
+        if alt_lines is not None:
+            # an index beyond size() but inside the capacity is invisible to valgrind: the same history (with the vector lengths of the
+            # symbolic state) on a build with the libstdc++ container assertions enabled aborts at the out-of-range operator[]
+            from replay import Lib
+            src2 = '#include <masa.h>\n#include <cstdio>\n#include <vector>\n#include <string>\nusing namespace MASA;\ntypedef %s Scalar;\nint main(){\n%s\n return 0;}\n' % (cxx, '\n'.join(alt_lines))
+            if 'assert-lib' not in _LIBS:
+                _LIBS['assert-lib'] = Lib(chk.scratch, extra=('-D_GLIBCXX_ASSERTIONS',))
+            rc2, out2, err2 = _LIBS['assert-lib'].run(src2, timeout=300)
+            if rc2 not in (0, 1) and ('Assertion' in err2 or '__n < this->size()' in err2 or rc2 < 0 or rc2 == 134):
+                path = chk.save_replay(ob, dict(obligation=ob.name, why=why, build='-D_GLIBCXX_ASSERTIONS', stderr=err2[-1500:], rc=rc2), src2)
+                return dict(reproduced=True, path=path, detail='%s; container assertion: %s' % (why, (err2.strip().split('\n') or [''])[-1][:200]))
         return dict(reproduced=False, path=None, detail='valgrind clean on the replay script (model-only finding: %s)' % why)
     return replay
 
@@ -235,12 +249,20 @@ def body(chk):
     for scalar in ('double', 'long double'):
         fs = 8 if scalar == 'double' else 16
         apis = c15.api_list(w, scalar)
-        for name in ('radiation_integrated_intensity', 'cp_normal'):
+        for name, concrete_params in (('radiation_integrated_intensity', False), ('cp_normal', False), ('radiation_integrated_intensity', True), ('cp_normal', True)):
             v = pde.RegView(chk, w, name, scalar)
             vnames = sorted(v.sol['vecs'])
             lens = (0, 1, 2)
+            if concrete_params:
+                # scalar parameters at their registered defaults (a loop bound taken from a parameter -- e.g. a count of terms -- is then concrete
+                # and is compared with the vector lengths); vector contents stay symbolic
+                base_st = w.find(scalar, name)[0].clone()
+                base_st.mem[(v.reg_rid, 0)] = (8, v.sol['ptr'])
+                base_st.events, base_st.writes = [], []
+            else:
+                base_st = v.st
             for combo in itertools.product(lens, repeat=len(vnames)):
-                st = v.st.clone()
+                st = base_st.clone()
                 for vn, n in zip(vnames, combo):
                     a = v.sol['vecs'][vn][1]
                     vv = st.side_mut((a.rid, a.off))
@@ -268,10 +290,12 @@ def body(chk):
                         if bad_events(p) or p['error'] is not None:
                             why = str(bad_events(p)[:1] or p['error'])[:200]
                     setup = ' '.join('{ std::vector<Scalar> t_(%d,(Scalar)0.5); masa_set_vec<Scalar>("%s",t_); }' % (n + (38 if n else 0), vn) for vn, n in zip(vnames, combo))
+                    setup_exact = ' '.join('{ std::vector<Scalar> t_(%d,(Scalar)0.5); masa_set_vec<Scalar>("%s",t_); }' % (n, vn) for vn, n in zip(vnames, combo))
                     call = '%s<Scalar>(%s)' % (api, ','.join('(Scalar)0.37' for q in sg.split(',') if q))
-                    chk.paths_clean('vector-lengths<%s>:%s:%s=%s:%s:no-memory-event' % (scalar, name, ','.join(vnames), combo, api), bad, key='vector-lengths:%s:%s' % (name, api), family='vector-length-combinations',
+                    chk.paths_clean('vector-lengths<%s>:%s:%s=%s:%s%s:no-memory-event' % (scalar, name, ','.join(vnames), combo, api, ':default-parameters' if concrete_params else ''), bad, key='vector-lengths:%s:%s' % (name, api), family='vector-length-combinations',
                                     sample=dict(obligation='lengths %r then %s' % (dict(zip(vnames, combo)), api), why=why),
-                                    replay=vg_replay(chk, ['masa_init<Scalar>("a","%s"); %s volatile Scalar r = %s;' % (name, setup, call)], 'vector lengths %r then %s: %s' % (dict(zip(vnames, combo)), api, why), scalar))
+                                    replay=vg_replay(chk, ['masa_init<Scalar>("a","%s"); %s volatile Scalar r = %s;' % (name, setup, call)], 'vector lengths %r then %s: %s' % (dict(zip(vnames, combo)), api, why), scalar,
+                                                     alt_lines=['masa_init<Scalar>("a","%s"); %s volatile Scalar r = %s;' % (name, setup_exact, call)]))
     # ---- 7. C array interface through the real callee, lengths 0..n
     v = pde.RegView(chk, w, 'cp_normal', 'double')
     ex = w.ex
